@@ -249,6 +249,9 @@ def handle(case):
             out['orig'] = {'ops': observe(fresh()), 'duration': 0}
             c1 = fresh()
             out['copy'] = {'ops': observe(wrap(c1.circuit_structure.copy())), 'duration': 0}
+            c1b = fresh()
+            _ = c1b.operations               # a user lists the circuit (relation hand-off), then copies it
+            out['copy_listed'] = {'ops': observe(wrap(c1b.circuit_structure.copy())), 'duration': 0}
             outer = DeclarativeCircuit()
             outer.add(fresh())
             out['nested'] = {'ops': observe(outer), 'duration': 0}
